@@ -1,6 +1,7 @@
 package rules
 
 import (
+	"go/token"
 	"go/types"
 	"reflect"
 	"strings"
@@ -145,6 +146,7 @@ func c18(r *core.Run) {
 
 	c18Migrate(r)
 	c18ErrProp(r)
+	c18Store(r)
 	c18Codec(r)
 	c18FreshTarget(r, "C18.FRESH")
 	c07JSONSave(r, "C18.ATOMICSAVE")
@@ -567,4 +569,114 @@ func c18ErrProp(r *core.Run) {
 		})
 	}
 	r.Floor("C18.ERRPROP", "storage calls of the commands whose failure must fail the command", n, 6)
+}
+
+// c18Store: "a signature that was added can be fetched back by its ID with identical content" — in the embedded
+// store a function that writes signature records reports success only after it wrote the record: no success return
+// is reachable around the record write (a shortcut that skips the write because "nothing changed" judges that from a
+// few fields and drops every other update), and in a batch every iteration writes its record unless the element is nil.
+func c18Store(r *core.Run) {
+	p := r.P
+	n := 0
+	for _, fn := range p.FuncsIn("pkg/storage/pebbledb") {
+		if fn.Parent() != nil || fn.Signature.Recv() == nil {
+			continue
+		}
+		var writes []ssa.Instruction
+		core.InstrsOf(fn, func(in ssa.Instruction) {
+			c := core.CallOf(in)
+			if c == nil {
+				return
+			}
+			nm := core.CalleeName(c)
+			if !strings.HasSuffix(nm, ".Batch).Set") && !strings.HasSuffix(nm, ".DB).Set") && nm != "invoke:(github.com/cockroachdb/pebble.Writer).Set" {
+				return
+			}
+			args := core.CallArgs(c)
+			for _, o := range core.Origins(args[2]) {
+				if cc, ok := o.(*ssa.Call); ok && core.CalleeName(&cc.Call) == "(*bytes.Buffer).Bytes" {
+					writes = append(writes, in)
+				}
+			}
+		})
+		if len(writes) == 0 {
+			continue
+		}
+		// only functions that take the signature(s) to store
+		takesSig := false
+		for _, pa := range fn.Params[1:] {
+			if strings.Contains(pa.Type().String(), "detection.Signature") {
+				takesSig = true
+			}
+		}
+		if !takesSig {
+			continue
+		}
+		fnm := core.FuncName(fn)
+		for _, w := range writes {
+			n++
+			cut := map[core.Edge]bool{}
+			for _, pb := range w.Block().Preds {
+				for i, sb := range pb.Succs {
+					if sb == w.Block() {
+						cut[core.Edge{From: pb, Idx: i}] = true
+					}
+				}
+			}
+			if h := core.LoopHeaderOf(w.Block()); h != nil {
+				// a batch: one iteration, from the body's entry back to the header, without the write
+				nilElem, _ := core.GuardEdges(fn, core.NilGuard(func(x ssa.Value) bool {
+					return strings.Contains(x.Type().String(), "detection.Signature")
+				}))
+				for e := range nilElem {
+					cut[e] = true
+				}
+				// "only the last element with this ID" (decided by C06.DEDUP): the position recorded for the ID is
+				// not this iteration's
+				notLast, _ := core.GuardEdges(fn, func(cond ssa.Value) (bool, bool) {
+					op, x, y, neg, ok := core.Compare(cond)
+					if !ok || neg || (op != token.NEQ && op != token.EQL) {
+						return false, false
+					}
+					for _, pair := range [][2]ssa.Value{{x, y}, {y, x}} {
+						if lk, isLk := core.Unwrap(pair[0]).(*ssa.Lookup); isLk && isStringIntMap(lk.X.Type()) && (isLoopCounter(pair[1]) || isCounterPlus(pair[1])) {
+							return true, op == token.NEQ
+						}
+					}
+					return false, false
+				})
+				for e := range notLast {
+					cut[e] = true
+				}
+				body := loopBody(h)
+				var wit []int
+				for _, s0 := range h.Succs {
+					if body[s0] && s0 != h {
+						if pth := core.PathAvoiding(s0, h, cut); pth != nil {
+							wit = pth
+						}
+					}
+				}
+				r.Check(wit == nil, "C18.STORE", fnm+"#every-element-written", w.Pos(), "every non-nil signature of the batch has its record written before the next one is taken up", "an iteration of the batch can end without writing the signature's record (path "+core.FmtPath(wit)+"): the function reports success but the signature cannot be fetched back with the content that was added")
+				continue
+			}
+			var wit []int
+			for _, ret := range core.Returns(fn) {
+				if len(ret.Results) == 0 || !core.IsNilConst(ret.Results[len(ret.Results)-1]) {
+					continue
+				}
+				if pth := core.PathAvoiding(fn.Blocks[0], ret.Block(), cut); pth != nil {
+					wit = pth
+				}
+			}
+			r.Check(wit == nil, "C18.STORE", fnm+"#success-only-after-write", w.Pos(), "success is reported only after the record was written", "success can be reported without writing the record (path "+core.FmtPath(wit)+"): an update that is judged redundant from a few fields is dropped, and GetSignature / export keep the old content")
+		}
+	}
+	r.Floor("C18.STORE", "record writes of the functions that add signatures", n, 2)
+}
+
+// isCounterPlus: the current index of a range loop as go/ssa computes it (hidden counter + 1).
+func isCounterPlus(v ssa.Value) bool {
+	b, ok := v.(*ssa.BinOp)
+	return ok && b.Op == token.ADD && isLoopCounter(b.X)
 }
